@@ -36,6 +36,10 @@ def plan(tier, seed):
             specs.append({"kind": "stride", "stride": 211 * 4, "n": 3500, "phase": i * 211})
         for i in range(6):
             specs.append({"kind": "programs", "part": i, "of": 6, "years": "sample"})
+        # the same under other host time zones (POSIX TZ strings, no tzdata needed): a day number is not a host-local instant
+        specs.append({"kind": "programs", "part": 0, "of": 12, "years": "sample", "env": {"TZ": "CET-1CEST,M3.5.0,M10.5.0/3"}})
+        specs.append({"kind": "programs", "part": 5, "of": 12, "years": "sample", "env": {"TZ": "NZST-12NZDT,M9.5.0,M4.1.0/3"}})
+        specs.append({"kind": "times", "n": 1500, "env": {"TZ": "EST5EDT,M3.2.0,M11.1.0"}})
         for i in range(5):
             specs.append({"kind": "times", "n": 4000})
     else:
@@ -43,8 +47,12 @@ def plan(tier, seed):
             specs.append({"kind": "all", "part": i, "of": 64})
         for i in range(16):
             specs.append({"kind": "programs", "part": i, "of": 16, "years": "wide"})
+        for i, tz in enumerate(["CET-1CEST,M3.5.0,M10.5.0/3", "NZST-12NZDT,M9.5.0,M4.1.0/3", "EST5EDT,M3.2.0,M11.1.0", "IST-5:30", "<-03>3"]):
+            specs.append({"kind": "programs", "part": i, "of": 16, "years": "wide", "env": {"TZ": tz}})
+            specs.append({"kind": "times", "n": 10000, "env": {"TZ": tz}})
         for i in range(4):
             specs.append({"kind": "times", "n": 50000})
+    specs.append({"kind": "qualified", "sample": 80 if tier == "quick" else None})
     return specs
 
 
@@ -309,6 +317,9 @@ def run_times(spec, ctx):
 
 
 def run_shard(spec, ctx):
+    if spec["kind"] == "qualified":
+        from cklmon import matrix
+        return matrix.unbound_names_in_modules(ctx, "C17", ["Date"], sample=spec.get("sample"))
     CONTRACT.install()
     kind = spec["kind"]
     if kind == "boundary":
